@@ -251,9 +251,48 @@ impl Group for C12Unit {
 
 // ---------------------------------------------------------------------------------------------
 
+/// A clock that can run a hook inside one `now()` call: the hook models another request running to
+/// completion while the caller is preempted right after it read the clock (it holds no lock there, so
+/// this is a legal interleaving of two overlapping requests).  The time returned is the one read BEFORE
+/// the hook ran.
+pub struct HookClock {
+    pub inner: Arc<ManualClock>,
+    pub hook: std::sync::Mutex<Option<Box<dyn FnOnce() + Send>>>,
+}
+impl lightning_signer::SendSync for HookClock {}
+impl lightning_signer::util::clock::Clock for HookClock {
+    fn now(&self) -> Duration {
+        use lightning_signer::util::clock::Clock;
+        let t = self.inner.now();
+        let h = self.hook.lock().unwrap().take();
+        if let Some(h) = h { h(); }
+        t
+    }
+}
+
+/// a real signed BOLT-11 invoice issued at `now` for the payment hash sha256(h)
+fn mk_invoice(h: [u8; 32], now: u64, amt: u64, key_byte: u8) -> lightning_signer::invoice::Invoice {
+    use lightning_signer::bitcoin::hashes::{sha256::Hash as Sha256Hash, Hash};
+    use lightning_signer::bitcoin::secp256k1::{Secp256k1, SecretKey};
+    use lightning_signer::lightning::types::payment::PaymentSecret;
+    use lightning_signer::lightning_invoice::{Currency, InvoiceBuilder};
+    let key = SecretKey::from_slice(&[key_byte; 32]).unwrap();
+    lightning_signer::invoice::Invoice::Bolt11(
+        InvoiceBuilder::new(Currency::BitcoinTestnet)
+            .description("verif".into())
+            .payment_hash(Sha256Hash::hash(&h))
+            .payment_secret(PaymentSecret(h))
+            .duration_since_epoch(Duration::from_secs(now))
+            .min_final_cltv_expiry_delta(144)
+            .amount_milli_satoshis(amt)
+            .build_signed(|hash| Secp256k1::new().sign_ecdsa_recoverable(hash, &key))
+            .unwrap(),
+    )
+}
+
 pub struct C12Node;
 
-fn services(persister: Arc<dyn Persist>, clock: Arc<ManualClock>, limit: u64, ty: VelocityControlIntervalType) -> NodeServices {
+fn services(persister: Arc<dyn Persist>, clock: Arc<dyn lightning_signer::util::clock::Clock>, limit: u64, ty: VelocityControlIntervalType) -> NodeServices {
     let mut policy = make_default_simple_policy(Network::Testnet);
     policy.global_velocity_control = VelocityControlSpec { limit_msat: limit, interval_type: ty };
     policy.max_invoices = 10_000;
@@ -278,10 +317,15 @@ impl Group for C12Node {
     fn budget(&self, tier: Tier) -> usize { if tier == Tier::Quick { 300 } else { 5000 } }
     fn corpus(&self) -> Vec<Vec<String>> {
         vec!["n_new 1000 h|n_keysend 1000000 900|n_keysend 1000000 900|n_restart 1000 h|n_keysend 1000000 900|n_keysend 1000001 100|n_keysend 1000001 1"
-            .split('|').map(|s| s.to_string()).collect()]
+            .split('|').map(|s| s.to_string()).collect(),
+            // overlapping invoice approvals across a bucket boundary (defect F25: the clock was read before the lock)
+            "n_new 1000000 h|n_race 1600000000 600000 1600000400 600000".split('|').map(|s| s.to_string()).collect(),
+            "n_new 1000000 h|n_keysend 1600000000 100|n_race 1600000100 600000 1600000100 600000".split('|').map(|s| s.to_string()).collect(),
+            "n_new 1000000 h|n_race 1600000000 600000 1600000400 600000 k".split('|').map(|s| s.to_string()).collect()]
     }
     fn model_line(&self, op: &str) -> Option<String> {
         let t: Vec<&str> = op.split_whitespace().collect();
+        if t.first() == Some(&"n_race") { return None; }
         Some(match t.as_slice() {
             ["n_new", l, ty] => format!("spec {} {}", l, ty),
             ["n_keysend", now, amt] | ["n_keysend", now, amt, _] => format!("insert {} {}", now, amt),
@@ -301,6 +345,7 @@ impl Group for C12Node {
         // Node timestamps start from a realistic epoch
         for x in ta.iter_mut() { x.0 = x.0.saturating_add(1_600_000_000).min(4_000_000_000); }
         ta.sort();
+        let tmax = ta.iter().map(|x| x.0).max().unwrap_or(1_600_000_000);
         for (t, a) in ta {
             if rng.chance(1, 4) {
                 let l = if rng.chance(1, 8) { limit + 1 } else { limit };
@@ -320,12 +365,23 @@ impl Group for C12Node {
                 k += 1;
             }
         }
+        // sometimes two overlapping invoice approvals at the end (the second one possibly in a later bucket)
+        if rng.chance(1, 5) {
+            // never before the last request of the case (the clock does not go backwards)
+            let t = tmax + *rng.pick(&[0u64, 1, bi, 2 * bi * n]);
+            let a = *rng.pick(&[limit / 2 + 1, limit, limit / 3 + 1, 1]);
+            let b = *rng.pick(&[limit / 2 + 1, limit, 1]);
+            let dt = *rng.pick(&[0u64, 1, bi - 1, bi, bi + 1, 3 * bi, (n - 1) * bi]);
+            if a > 0 && b > 0 { ops.push(format!("n_race {} {} {} {}{}", t, a, t + dt, b, if rng.chance(1, 2) { " k" } else { "" })); }
+        }
         ops
     }
     fn exec_case(&self, ops: &[String]) -> CaseOut {
         let mut co = CaseOut::default();
         let persister: Arc<dyn Persist> = Arc::new(KVVPersister(MemoryKVVStore::new([7u8; 16]), JsonFormat));
-        let clock = Arc::new(ManualClock::new(Duration::from_secs(1_600_000_000)));
+        let mclock = Arc::new(ManualClock::new(Duration::from_secs(1_600_000_000)));
+        let clock = mclock.clone();
+        let hclock = Arc::new(HookClock { inner: mclock.clone(), hook: std::sync::Mutex::new(None) });
         let seed = [9u8; 32];
         let config = NodeConfig {
             network: Network::Testnet,
@@ -359,7 +415,7 @@ impl Group for C12Node {
                 ["n_new", l, ty] => {
                     last_req = None;
                     cur_spec = Some((l.parse().unwrap(), ty.to_string()));
-                    let n = Arc::new(Node::new(config, &seed, vec![], services(persister.clone(), clock.clone(), l.parse().unwrap(), itype(ty).unwrap())));
+                    let n = Arc::new(Node::new(config, &seed, vec![], services(persister.clone(), hclock.clone(), l.parse().unwrap(), itype(ty).unwrap())));
                     persister.new_node(&n.get_id(), &config, &*n.get_state()).unwrap();
                     persister.new_tracker(&n.get_id(), &n.get_tracker()).unwrap();
                     {
@@ -451,12 +507,85 @@ impl Group for C12Node {
                         }
                     }
                 }
+                ["n_race", ta, aa, tb, ab, ..] => {
+                    // 6th token `k`: request A is a keysend approval (its pre-lock clock read is the one that stamps
+                    // the payment), otherwise an invoice approval
+                    let a_keysend = t.get(5) == Some(&"k");
+                    // two overlapping invoice approvals: A reads the clock at ta and is preempted before it takes
+                    // the node state; B (at tb >= ta) runs completely; A continues.  Whatever the order the signer
+                    // serialises them in, the approved amounts must respect the window bound (and nothing panics).
+                    assert!(i + 1 == ops.len(), "n_race must be the last op of a case");
+                    // With the clock read before the lock (defect F25) a debug build aborts the whole process
+                    // (panic while the state lock is held, then a second panic in the `defer!` guard).  So the case
+                    // is first run in a child process; an abort there is the violation, with this case as replay.
+                    if std::env::var("VERIF_RACE_CHILD").is_err() {
+                        let tmp = std::env::temp_dir().join(format!("vls-verif-race-{}-{}.txt", std::process::id(), i));
+                        let mut txt = String::from("case 0\n");
+                        for o in ops { txt.push_str(o); txt.push('\n'); }
+                        std::fs::write(&tmp, txt).unwrap();
+                        let st = std::process::Command::new(std::env::current_exe().unwrap())
+                            .args(["C12", "--group", "1", "--replay", tmp.to_str().unwrap(), "--out", "/dev/null"])
+                            .env("VERIF_RACE_CHILD", "1")
+                            .stdout(std::process::Stdio::null())
+                            .stderr(std::process::Stdio::null())
+                            .status();
+                        let _ = std::fs::remove_file(&tmp);
+                        let aborted = match st { Ok(s) => !s.success(), Err(_) => false };
+                        if aborted {
+                            co.tags.insert("race:aborted".into());
+                            co.violations.push(Violation {
+                                kind: "overlapping-approvals-abort".into(),
+                                desc: format!("{}: the signer process aborts when two approvals overlap (a request that read the clock before taking the node state lock is overtaken by a later one: time goes backwards inside VelocityControl::insert)", op),
+                                at: i,
+                            });
+                            co.out.push("race aborted".into());
+                            continue;
+                        }
+                    }
+                    let n = node.as_ref().expect("n_new first").clone();
+                    let (ta, aa, tb, ab): (u64, u64, u64, u64) = (ta.parse().unwrap(), aa.parse().unwrap(), tb.parse().unwrap(), ab.parse().unwrap());
+                    hash_ctr += 2;
+                    let (mut ha, mut hb) = ([0u8; 32], [0u8; 32]);
+                    ha[..4].copy_from_slice(&hash_ctr.to_be_bytes());
+                    hb[..4].copy_from_slice(&(hash_ctr - 1).to_be_bytes());
+                    clock.set(Duration::from_secs(ta));
+                    let res_b: Arc<std::sync::Mutex<Option<bool>>> = Arc::new(std::sync::Mutex::new(None));
+                    {
+                        let (n2, c2, rb) = (n.clone(), mclock.clone(), res_b.clone());
+                        let inv_b = mk_invoice(hb, tb, ab, 43);
+                        *hclock.hook.lock().unwrap() = Some(Box::new(move || {
+                            c2.set(Duration::from_secs(tb));
+                            *rb.lock().unwrap() = n2.add_invoice(inv_b).ok();
+                        }));
+                    }
+                    let ra = if a_keysend { n.add_keysend(make_test_pubkey(1), PaymentHash(ha), aa).ok() } else { n.add_invoice(mk_invoice(ha, ta, aa, 43)).ok() };
+                    let rb = *res_b.lock().unwrap();
+                    let (limit, wlen) = match &cur_spec {
+                        Some((l, ty)) if ty == "d" => (*l, 23 * 3600u64),
+                        Some((l, _)) => (*l, 11 * 300u64),
+                        None => (u64::MAX, 0),
+                    };
+                    if rb == Some(true) { log.push((tb, ab)); }
+                    if ra == Some(true) { log.push((tb.max(ta), aa)); }
+                    log.sort();
+                    co.tags.insert(format!("race:{:?}:{:?}", ra, rb));
+                    if limit != u64::MAX {
+                        if let Some((t0, sum)) = window_violation(&log, wlen, limit) {
+                            co.violations.push(Violation {
+                                kind: "window-exceeds-limit:overlapping-approvals".into(),
+                                desc: format!("two overlapping invoice approvals (clock read at {} before the lock, the other request at {}): {} msat approved within window [{}, {}] with limit {}", ta, tb, sum, t0, t0 + wlen, limit),
+                                at: i,
+                            });
+                        }
+                    }
+                    format!("race {:?} {:?}", ra, rb)
+                }
                 ["n_restart", l, ty] => {
                     sr = true;
                     let old = node.take().expect("n_new first");
                     drop(old);
                     let (node_id, entry) = persister.get_nodes().unwrap().into_iter().next().unwrap();
-                    let n = Node::restore_node(&node_id, entry, &seed, services(persister.clone(), clock.clone(), l.parse().unwrap(), itype(ty).unwrap())).unwrap();
+                    let n = Node::restore_node(&node_id, entry, &seed, services(persister.clone(), hclock.clone(), l.parse().unwrap(), itype(ty).unwrap())).unwrap();
                     let d = digest(&n.get_state().velocity_control);
                     let new_spec = Some((l.parse::<u64>().unwrap(), ty.to_string()));
                     if new_spec != cur_spec { log.clear(); co.tags.insert("restart:spec-changed".into()); } else { co.tags.insert("restart:kept".into()); }
